@@ -82,9 +82,9 @@ def check_pairs(ctx, snap, texts, where, root, files_for_replay):
         for d in defs:
             key = (d["file"], name)
             by_fn[key] += len(refs.get((d["file"], d["line"], name), []))
-            m = meta.setdefault(key, {"tp": False, "auto": False})
+            m = meta.setdefault(key, {"tp": False, "auto": True})
             m["tp"] |= d["third_party"]
-            m["auto"] |= d["autouse"]
+            m["auto"] &= d["autouse"]          # skipped only if EVERY definition of (file, name) is autouse
     # usages in currently unparsable documents still count (their last valid version is in effect)
     exp_unused = sorted([list(k) for k, n in by_fn.items() if n == 0 and not meta[k]["tp"] and not meta[k]["auto"]])
     got_unused = sorted({tuple(x) for x in q["unused"]})
